@@ -88,7 +88,7 @@ Reads(ev) == (IF ev.op \in {"Convert", "Add", "Sub", "Mul", "Div", "Neg", "Abs",
 Judge(ev) ==
     IF \E r \in Reads(ev) : regs[r].k = "oor" THEN "oor" ELSE      \* an operand left the model range earlier
     CASE ev.op = "Lit"   -> "ok"
-      [] ev.op = "Round" -> RoundJudge(regs[ev.x], ev.n, ObsVal(ev.res))
+      [] ev.op = "Round" -> RoundJudge(regs[ev.x], ev.n, ObsVal(ev.res), mode)
       [] ev.op = "Alloc" ->
             LET q  == regs[ev.x]
                 rs == [j \in DOMAIN ev.rs |-> regs[ev.rs[j]]]
